@@ -29,7 +29,7 @@ func init() {
 				Rule: "case = one tree shape (beta in {0,250,600,900,1000,...}, built by a C01-style history or bulk New) with: Cursor(k) for EVERY key and for absent keys around every key; full forward (Min, Next...) and backward (Max, Prev...) sweeps with HasNext/HasPrev before each move; subtree checks at every node (everything through Left smaller, through Right larger, Cursor.Inorder == subtree keys ascending, early stop, the same cursor scanned again from inside its own scan (re-entrancy; cursors obtained by Cursor(k) and by moves from the root), Min/Max land on subtree extremes, Up after Left/Right returns); " +
 					"random walks (Next/Prev/Left/Right/Up/Min/Max/Clone, 200-2000 moves) of a population of up to 4 cursors with shadow positions, all cursors re-checked after every move; sparse-observation walks (only Valid/Key looked at after each move, the Has* predicates asked occasionally and not re-asked before the next move); cursors looked up, the tree cloned, the original modified, and the clone checked through every cursor operation; nil and invalidated cursors: every method a harmless no-op. " +
 					"distinct = hash of (shape as parent vector, walk seed); non-trivial = the shape has depth >= 4 and the walks included a Next/Prev that climbed >= 2 ancestors",
-				Required:     []string{"shapes", "next_climb_ge2", "prev_climb_ge2", "clone_moves", "invalid_cursor_probes", "absent_key_probes", "shapes_depth_ge10", "walk_moves", "empty_trees", "shapes_with_wide_comparator", "sparse_walk_moves", "clone_after_lookup_checks", "reentrant_scans", "cursors_reached_by_moves", "bulk_new_with_repeated_keys", "abandoned_scans", "scans_with_cursor_moved_inside"},
+				Required:     []string{"shapes", "next_climb_ge2", "prev_climb_ge2", "clone_moves", "invalid_cursor_probes", "absent_key_probes", "shapes_depth_ge10", "walk_moves", "empty_trees", "shapes_with_wide_comparator", "sparse_walk_moves", "clone_after_lookup_checks", "reentrant_scans", "cursors_reached_by_moves", "bulk_new_with_repeated_keys", "abandoned_scans", "scans_with_cursor_moved_inside", "very_deep_shapes"},
 				Assumptions:  []string{"Cursor.Inorder is read as listing the subtree where the cursor stood when Inorder was called, also if the loop body moves that cursor", "set contents are taken from Tree.Inorder (property C01)", "the structure used as shadow model is itself read through the cursor API, and is accepted only if two independent readings agree and form a binary search tree over exactly the reference set"},
 				CoverPkgs:    []string{"github.com/creachadair/mds/stree"},
 				CoverAnchors: []string{"stree/cursor.go", "stree/stree.go:Cursor", "stree/stree.go:Root", "stree/node.go:pathTo"},
@@ -680,6 +680,13 @@ func (k *c03case) cloneAfterLookups() {
 }
 
 func runC03(c *fw.Ctx) {
+	if c.Block < 6 && c.Begin(1<<22+c.Block) {
+		depth := []int{4200, 6000, 9000}[c.Block/2%3]
+		ok, pv, stack := fw.Try(func() { c03veryDeep(c, c.Block%3, depth) })
+		if !ok {
+			c.FailKind("panic", map[string]any{"phase": "very deep trees", "chain_length": depth}, "panic: %v\n%s", pv, stack)
+		}
+	}
 	betas := []int{0, 250, 600, 900, 1000, 1000, 100, 999}
 	ncases := c.Pick(240, 4000)
 	for i := 0; i < ncases; i++ {
@@ -863,4 +870,90 @@ func c03build(r *rand.Rand, beta, caseIdx int, c *fw.Ctx) (*stree.Tree[Elem], st
 		}
 		return t, desc + " (sawtooth)"
 	}
+}
+
+// c03veryDeep: trees several thousand levels deep (balance factor 1000: never
+// rebalanced) in which the in-order neighbour of a deep node is a shallow
+// ancestor far above it, and the other way round: a long chain hanging under a
+// child of the root, its mirror image, and a chain with side branches. For
+// every key, Cursor(k).Next and Cursor(k).Prev must land on the neighbouring
+// keys; full forward and backward sweeps; HasNext/HasPrev.
+func c03veryDeep(c *fw.Ctx, variant, depth int) {
+	t := stree.New(1000, cmpElem)
+	tag := 0
+	add := func(k int) { tag++; t.Add(Elem{Key: k, Tag: tag}) }
+	switch variant {
+	case 0: // root, a left child, and an ascending chain below that child
+		add(2 * depth * 3)
+		add(depth * 3)
+		for i := 1; i <= depth; i++ {
+			add(i)
+		}
+	case 1: // the mirror image
+		add(-2 * depth * 3)
+		add(-depth * 3)
+		for i := 1; i <= depth; i++ {
+			add(-i)
+		}
+	default: // a descending chain with a right branch of three nodes every 512 levels
+		for i := depth; i >= 1; i-- {
+			add(i * 10)
+			if i%512 == 0 {
+				add(i*10 + 5)
+				add(i*10 + 3)
+				add(i*10 + 7)
+			}
+		}
+	}
+	var keys []int
+	t.Inorder(func(e Elem) bool { keys = append(keys, e.Key); return true })
+	data := map[string]any{"shape": []string{"root, left child, ascending chain below it", "mirror image", "descending chain with side branches"}[variant], "chain_length": depth, "keys": len(keys)}
+	for i := 1; i < len(keys); i++ {
+		if keys[i-1] >= keys[i] {
+			c.Fail(data, "Tree.Inorder not ascending at position %d", i)
+			return
+		}
+	}
+	at := func(cu *stree.Cursor[Elem], i int) bool {
+		if i < 0 || i >= len(keys) {
+			return !cu.Valid()
+		}
+		return cu.Valid() && cu.Key().Key == keys[i]
+	}
+	for i, k := range keys {
+		cu := t.Cursor(Elem{Key: k})
+		if !at(cu, i) || cu.HasNext() != (i+1 < len(keys)) || cu.HasPrev() != (i > 0) {
+			c.Fail(data, "Cursor(%d): valid=%v key=%v HasNext=%v HasPrev=%v (in-order position %d of %d)", k, cu.Valid(), cu.Key(), cu.HasNext(), cu.HasPrev(), i, len(keys))
+			return
+		}
+		if nx := cu.Clone().Next(); !at(nx, i+1) {
+			c.Fail(data, "Cursor(%d).Next is at %v (valid=%v), want in-order position %d", k, nx.Key(), nx.Valid(), i+1)
+			return
+		}
+		if pv := cu.Prev(); !at(pv, i-1) {
+			c.Fail(data, "Cursor(%d).Prev is at %v (valid=%v), want in-order position %d", k, pv.Key(), pv.Valid(), i-1)
+			return
+		}
+		if i%64 == 0 {
+			c.Step()
+		}
+	}
+	cu := t.Root().Min()
+	for i := 0; i <= len(keys); i++ {
+		if !at(cu, i) {
+			c.Fail(data, "forward sweep: step %d is at %v (valid=%v)", i, cu.Key(), cu.Valid())
+			return
+		}
+		cu.Next()
+	}
+	cu = t.Root().Max()
+	for i := len(keys) - 1; i >= -1; i-- {
+		if !at(cu, i) {
+			c.Fail(data, "backward sweep: position %d is at %v (valid=%v)", i, cu.Key(), cu.Valid())
+			return
+		}
+		cu.Prev()
+	}
+	c.Add("very_deep_shapes", 1)
+	c.Max("max:tree_depth", int64(depth))
 }
